@@ -1,6 +1,7 @@
 import Nject.WF
 import Nject.Edit
 import Nject.Pipeline
+import Nject.Slots
 /-
   Line-protocol driver: reads the case blocks the Go harness writes, rebuilds the compiled
   chain from the implementation's own S7 dump, runs `Exec` and `Spec` with the scripted
@@ -262,11 +263,45 @@ def runAssemble (a : CaseAcc) : List String :=
     | none => ["m3 err E_CLASSIFY"]
     | some asm => [s!"m3 ok inv={asm.invokeIndex} " ++ " ".intercalate (asm.funcs.map fmtCP)]
 
+def sortNat (l : List Nat) : List Nat := (l.toArray.qsort (· < ·)).toList
+
+def fmtRm (m : List (Ty × Ty)) : String :=
+  if m.isEmpty then "-" else
+  let strs := (m.map fun p => s!"{p.1}>{p.2}").toArray.qsort (· < ·)
+  ",".intercalate strs.toList
+
+def fmtBindErr : BindErr → String
+  | .edit e => fmtEditErr e
+  | .classify => "E_CLASSIFY"
+  | .required => "E_REQUIRED"
+  | .wanted => "E_WANTED"
+  | .internal => "E_INTERNAL"
+  | .shadow => "E_SHADOW"
+  | .initType => "E_INIT_TYPE"
+  | .fuel => "FUEL"
+
+def dedup (l : List Nat) : List Nat := l.foldl (fun acc x => if acc.contains x then acc else acc ++ [x]) []
+
+/-- S5/S6: the model's include flags, remaps, slot partition and zero lists -/
+def runBindModel (a : CaseAcc) : List String :=
+  match bindModel stdTyInfo a.enodes.reverse a.pdescs a.invSig a.initSig with
+  | .error e => ["m5 err " ++ fmtBindErr e]
+  | .ok bo =>
+    let fl := bo.chain.map fun f =>
+      s!"{f.c.id}:{if f.inc then 1 else 0}:{fmtRm f.downRmap}:{fmtRm f.upRmap}:{fmtRm f.bypassRmap}:{if f.wanted then 1 else 0}"
+    let zl := bo.chain.filterMap fun f =>
+      if !f.inc then none else
+      let zs := sortNat (dedup ((bo.slots.zskip.lookup f.pos).getD []))
+      let zi := sortNat (dedup ((bo.slots.zinner.lookup f.pos).getD []))
+      some s!"{f.c.id}:{fmtTys zs}:{fmtTys zi}"
+    [ "m5 ok " ++ " ".intercalate fl,
+      s!"m6 vcount={bo.slots.st.count} d={fmtTys (sortNat (bo.slots.st.dmap.map (·.1)))} u={fmtTys (sortNat (bo.slots.st.umap.map (·.1)))} z " ++ " ".intercalate zl ]
+
 /-- run all ops through Exec and Spec; returns output lines -/
 def runCase (a : CaseAcc) : List String :=
-  if !a.bindOk then [s!"case {a.n}", runEdit a] ++ runAssemble a ++ ["skip nobind", "end"] else
+  if !a.bindOk then [s!"case {a.n}", runEdit a] ++ runAssemble a ++ runBindModel a ++ ["skip nobind", "end"] else
   match mkCompiled a.vcount a.flines.reverse a.dv a.uv with
-  | none => [s!"case {a.n}", runEdit a] ++ runAssemble a ++ ["skip nodump", "end"]
+  | none => [s!"case {a.n}", runEdit a] ++ runAssemble a ++ runBindModel a ++ ["skip nodump", "end"]
   | some c =>
     let b := mkBeh a.scripts
     let wf := match checkWF c with
@@ -288,7 +323,7 @@ def runCase (a : CaseAcc) : List String :=
       (ls ++ evs.map ("s " ++ ·) ++ [s!"s ret {fmtVals res}"], s')) ([], c.specBindState)
     let (fl, fnode) := (buildProg c.run c.fin).flatten
     let prog := if fl.map (·.id) == c.run.map (·.id) && fnode.id == c.fin.id then "prog ok" else "prog fail"
-    [s!"case {a.n}", runEdit a] ++ runAssemble a ++ [wf, sup, prog] ++ xl ++ sl ++ ["end"]
+    [s!"case {a.n}", runEdit a] ++ runAssemble a ++ runBindModel a ++ [wf, sup, prog] ++ xl ++ sl ++ ["end"]
 
 def stepLine (a : CaseAcc) (line : String) : CaseAcc × List String :=
   let toks := (line.splitOn " ").filter (· != "")
